@@ -402,6 +402,10 @@ def main(check_cls, argv=None):
         n, last = confirm(check, tier, seed, v["program"], times=3)
         if n == 0:
             unconfirmed += 1
+            # not a verdict (three fresh replays passed) - kept in the evidence so that it can be looked at
+            merged["extra"].setdefault("unconfirmed_samples", [])
+            if len(merged["extra"]["unconfirmed_samples"]) < 6:
+                merged["extra"]["unconfirmed_samples"].append({"what": str(v.get("what"))[:600], "program": v["program"]})
             continue
         vdir = os.path.join(os.environ.get("VERIF_VIOLATIONS_DIR", os.path.join(VERIF, "violations")), check.pid)
         os.makedirs(vdir, exist_ok=True)
